@@ -629,7 +629,7 @@ pub fn cases(tier: Tier) -> Vec<AttrCase> {
         }
     }
     // two entries: every value next to every representative, both name orders
-    let pairs: &[(&str, &str)] = if tier == Tier::Quick { &[("a", "é"), ("é", "")] } else { &[("a", "é"), ("é", ""), ("", "a"), ("a", "a-forty-character-attribute-name-0123456")] };
+    let pairs: &[(&str, &str)] = &[("a", "é"), ("é", ""), ("", "a"), ("a", "a-forty-character-attribute-name-0123456")];
     for (t1, v1) in &all {
         for (t2, v2) in &reps {
             for (n1, n2) in pairs {
@@ -639,8 +639,16 @@ pub fn cases(tier: Tier) -> Vec<AttrCase> {
             }
         }
     }
+    // thorough: every value next to every value (one name pair)
+    if tier == Tier::Thorough {
+        for (t1, v1) in &all {
+            for (t2, v2) in &all {
+                out.push(AttrCase { entries: vec![("k".to_owned(), t1.clone(), v1.label.clone()), ("j".to_owned(), t2.clone(), v2.label.clone())] });
+            }
+        }
+    }
     // three entries over the representatives
-    let step = if tier == Tier::Quick { 2 } else { 1 };
+    let step = 1;
     for (i, (t1, v1)) in reps.iter().enumerate().step_by(step) {
         for (t2, v2) in &reps {
             for (t3, v3) in reps.iter().skip(i % 2).step_by(2) {
